@@ -43,7 +43,7 @@ fn observe<P>(p: &[f64], knot: Knot, a: f64, b: f64) -> Result<Obs, String>
 where
     P: PolyK,
     Log<P>: HasIntegral,
-    <Log<P> as HasIntegral>::IntegralOf: Flat,
+    <Log<P> as HasIntegral>::IntegralOf: Flat + Clone + PartialEq + std::fmt::Debug,
 {
     let l = Log(P::from_coeffs(p));
     crate::runner::lib(|| {
